@@ -468,6 +468,12 @@ func c02Judge(r *vc.Run, env *atEnv, c *atCase, o *atOutcome, f c02Fault, delive
 	}
 	feat["fault"] = f.Kind
 	feat["fault_at"] = f.What
+	for _, j := range o.Journal {
+		if j.Injected != "" {
+			feat["fault_at"] = j.Kind // the command that was really hit
+			break
+		}
+	}
 	if f.Kind == "report-fail" {
 		feat["report_refusals"] = fmt.Sprint(f.Times)
 	}
@@ -489,6 +495,21 @@ func c02Judge(r *vc.Run, env *atEnv, c *atCase, o *atOutcome, f c02Fault, delive
 		viol("panic", "the call panicked: "+clipStr(o.Res.PanicVal, 300))
 	}
 	txs := atLocalTxs(o.Journal, o.TCEvents, o.Xid, map[string]bool{"proxied": true, "app": true})
+	// when the fault struck: local transactions that had committed before it are legitimately durable (a program of
+	// several autocommit statements has several branches); only what commits at or after the fault is judged by (c)
+	var faultSeq int64
+	for _, j := range o.Journal {
+		if j.Injected != "" && (faultSeq == 0 || j.Seq < faultSeq) {
+			faultSeq = j.Seq
+		}
+	}
+	if strings.HasPrefix(f.Kind, "register-") {
+		for _, e := range o.TCEvents {
+			if e.Dir == "in" && e.Msg != nil && e.Msg.Type == wire.TBranchRegister && e.Msg.S("xid") == o.Xid && (faultSeq == 0 || e.Seq < faultSeq) {
+				faultSeq = e.Seq
+			}
+		}
+	}
 	anyDurable := false
 	for _, tx := range txs {
 		var appRows, undoRows []mm.RowChange
@@ -506,7 +527,9 @@ func c02Judge(r *vc.Run, env *atEnv, c *atCase, o *atOutcome, f c02Fault, delive
 			}
 			continue
 		}
-		anyDurable = anyDurable || len(appRows) > 0
+		if len(appRows) > 0 && (faultSeq == 0 || tx.EndSeq >= faultSeq) {
+			anyDurable = true
+		}
 		if tx.Ended == "IMPLICIT" {
 			viol("implicit-commit", fmt.Sprintf("%d business rows became durable through an implicit commit (a later START TRANSACTION on a connection left inside a transaction)", len(appRows)))
 			continue
@@ -589,6 +612,12 @@ func c02Judge(r *vc.Run, env *atEnv, c *atCase, o *atOutcome, f c02Fault, delive
 func c02ErrAfterCommit(o *atOutcome, f c02Fault) bool {
 	if f.Kind == "drop-after" && f.What == "COMMIT" {
 		return true
+	}
+	// the command that was really hit (positions come from a baseline run and may shift by a metadata lookup)
+	for _, j := range o.Journal {
+		if j.Injected == "drop-after" && j.Kind == "COMMIT" {
+			return true
+		}
 	}
 	return false
 }
